@@ -76,7 +76,7 @@ Print Assumptions C12_tls_uniform_run.
    certificate failure implies it is not (an acceptable one is never refused).  [user_tls c = None]: the caller
    has not replaced the library's TLS by his own through SetDialTLS / SetTLSHandshake (next theorem). *)
 Theorem C12_settings_govern_every_handshake : forall e c,
-  user_tls c = None ->
+  route e c = None -> user_tls c = None ->
   let '(o, ds, _) := do_req e c in
   Forall (fun d => d_sni d = t_sname (effective (e_host e) (c_tls c))) ds /\
   (ds <> [] -> (forall v, o = Use v -> acceptable e c = true) /\ (o = Fail ECert -> acceptable e c = false)).
@@ -87,7 +87,7 @@ Print Assumptions C12_settings_govern_every_handshake.
    governed - in the same sense - by the configuration the caller's function uses, every QUIC handshake still by
    the client's settings; in EVERY client state. *)
 Theorem C12_user_tls_governs_tcp_only : forall e c t,
-  user_tls c = Some t ->
+  route e c = None -> user_tls c = Some t ->
   let '(o, ds, _) := do_req e c in
   Forall (fun d =>
     let g := if stack_quic (d_stack d) then effective (e_host e) (c_tls c) else default_sname (e_host e) t in
@@ -115,7 +115,7 @@ Print Assumptions C12_forced_after_any_history.
    unacceptable under the client's settings (wrong root, wrong name, missing client certificate, no skip) and
    is never refused for its certificate when the origin is acceptable. *)
 Theorem C12_new_connection_decided_by_settings : forall e c,
-  e_https e = true -> c_plain_dialtls c = false -> user_tls c = None -> no_conns c ->
+  route e c = None -> e_https e = true -> c_plain_dialtls c = false -> user_tls c = None -> no_conns c ->
   (acceptable e c = false -> exists er, outcome_of (do_req e c) = Fail er) /\
   (acceptable e c = true -> outcome_of (do_req e c) <> Fail ECert).
 Proof. exact new_connection_decided_by_settings. Qed.
@@ -197,6 +197,43 @@ Theorem C12_tls_uniform_two_authorities : forall eA eB ops cA cB s only_h1,
   sec (tls_view s only_h1 (e_host eB) (c_tls (snd w))) = sec (effective (e_host eB) (settings (map snd ops) (c_tls cA))).
 Proof. exact tls_uniform_two_hosts. Qed.
 Print Assumptions C12_tls_uniform_two_authorities.
+
+(* The route through a CONNECT proxy (SetProxyURL, http:// or https://; [route e c = None] in the theorems above =
+   the direct route).  Whatever the dispatch does with the request (the http2 transport's own dials and HTTP/3 do
+   not go through the proxy), in EVERY state: every handshake with the ORIGIN inside a tunnel carries the ORIGIN's
+   name (never the proxy's) under the client's settings (or the TLSHandshakeContext hook's); a success implies the
+   origin is acceptable under them, a certificate failure of the last handshake that it is not; every handshake of
+   the first hop to an https:// proxy carries the PROXY's name under the client's settings (or the DialTLSContext
+   function's). *)
+Theorem C12_origin_handshake_governed_via_proxy : forall e c px,
+  route e c = Some px ->
+  let '(o, ds, _) := do_req e c in
+  Forall (fun d =>
+    match d_stack d with
+    | S1 => d_sni d = t_sname (origin_cfg_via_proxy e c) /\
+            (forall v, o = Use v -> acceptable_under (origin_cfg_via_proxy e c) e = true)
+    | SP => d_sni d = t_sname (proxy_cfg px c) /\ (forall v, o = Use v -> acceptable_proxy px c = true)
+    | _ => True
+    end) ds /\
+  (o = Fail ECert ->
+   match last_stack ds with
+   | Some S1 => acceptable_under (origin_cfg_via_proxy e c) e = false
+   | Some SP => acceptable_proxy px c = false
+   | _ => True
+   end).
+Proof. exact do_req_proxy_sound. Qed.
+Print Assumptions C12_origin_handshake_governed_via_proxy.
+
+(* A tunnel - like every connection - serves its own authority only: C12_two_authorities_independent holds for
+   every environment, the proxy route included (each authority of an interleaved sequence sees exactly its own
+   one-authority run), and the code's idle list is keyed by the target of an https request behind a proxy
+   (generated fact on connectMethod.key). *)
+Theorem C12_tunnel_reused_for_its_authority_only : forall eA eB ops cA cB,
+  (fst (snd (run2 eA eB (cA, cB) ops)) = snd (run eA cA (proj_host false ops)) /\
+   snd (snd (run2 eA eB (cA, cB) ops)) = snd (run eB cB (proj_host true ops))) /\
+  pool_key_keeps_https_target = true.
+Proof. exact (fun eA eB ops cA cB => conj (run2_proj eA eB ops cA cB) gen_key_keeps_target). Qed.
+Print Assumptions C12_tunnel_reused_for_its_authority_only.
 
 (* the three defects of the pinned tree, as theorems about the pinned variants of the same functions *)
 Theorem C12_tls_uniform_pinned_refuted :
